@@ -107,6 +107,11 @@ def classify(rej, trace_lines):
     if ev == 'HEnter':
         if any(e.get('ev') == 'CloseRet' and e['i'] < line['i'] for e in evs):
             what += ':afterCloseRet'
+            # when was the frame read? (hook events read.frame / close.closed)
+            reads = [e['i'] for e in evs if e.get('ev') == 'P' and e.get('pt') == 'read.frame' and e.get('b') == 1 and e.get('a') == 0 and e['i'] < line['i']]
+            closed = [e['i'] for e in evs if e.get('ev') == 'P' and e.get('pt') == 'close.closed']
+            if reads and closed:
+                what += ':readWhileClosing' if reads[-1] < closed[0] else ':readAfterClosed'
     if ev == 'DiscHook':
         what += ':second'
     return what + '/' + '+'.join(feats)
